@@ -4,3 +4,5 @@ pub mod refhash;
 pub mod refserde;
 pub mod refvm;
 pub mod unknownop;
+pub mod refcrypto;
+pub mod h2c;
